@@ -176,12 +176,12 @@ def shard_strings(arg):
 # ---- (B) structured tag sets ----------------------------------------------------------------------------------
 NAMES = ['m', 'a.b', '~m', 'm{', 'n}', 'x"}', '', '~']
 KEYS = ['k', 'K', 'k2', 'z', 'a{', 'b}', 'c"', 'd\\', 'e,', 'f~', '~g', '', 'x;y', 'x!y', 'x^y', 'x=y', '!k', '^k']
-VALUES = ['v', '1', 'y"}', '{', 'p=q', 'a,b', 'b\\s', 'q"', '}', '1{t="w"}', '', '~v', 'a;b']
+VALUES = ['v', 'é', '1', 'y"}', '{', 'p=q', 'a,b', 'b\\s', 'q"', '}', '1{t="w"}', '', '~v', 'a;b']
 
 
 def tagsets(max_tags, thorough):
   keys = KEYS if thorough else KEYS[:11] + ['', 'x;y', 'x=y', 'x!y', 'x^y']
-  vals = VALUES if thorough else VALUES[:8] + ['1{t="w"}', '', '~v', 'a;b']
+  vals = VALUES if thorough else VALUES[:9] + ['1{t="w"}', '', '~v', 'a;b']
   out = []
   for nt in range(1, max_tags + 1):
     for ks in itertools.combinations(keys, nt):
